@@ -9,7 +9,8 @@ oracle image.  Section histories-reads adds the op ["eval"] between assignments 
 evaluated): whatever the library remembers from a read must not survive a later assignment; states that
 were read at different moments are not merged.  In every state reached by an assignment the history is also replayed with a
 HOSTILE CALLER (`hostile_caller`: the caller scales / overwrites in place the arrays it has assigned, before or after copying the
-representation; the copy's own matrices are scaled in place): a representation is defined by the matrices as they were when they
+representation; the copy's own matrices are scaled in place; `hostile_reader`: every value that [w] / element(w) / elements(words) of the plain
+and of the wrapped representations handed OUT is scaled in place): a representation is defined by the matrices as they were when they
 were assigned.  Section astype-integer: astype('int64') of representations into GL(n, Z).  Engine P: word utilities on all words, and cocycle/coboundary matrices of
 representations with satisfied relations.
 """
@@ -199,7 +200,8 @@ def dtype_class(rep, assigned):
 #                values" is demanded (a HyperbolicRepresentation of adjoint matrices is not a statement about O(n,1))
 #   "plain"      tensor_product, symmetric_square: built as Representation(): plain class, ndarray values
 # ------------------------------------------------------------------------------------------
-CLASS_CONTRACT = {"copy": "same", "conjugate": "same", "dual": "same", "astype-complex": "same", "astype-float": "same",
+CLASS_CONTRACT = {"copy": "same", "conjugate": "same", "conjugate-inv_mat": "same", "conjugate(unwrap=False)": "same",
+                  "conjugate-inv_mat(unwrap=False)": "same", "dual": "same", "astype-complex": "same", "astype-float": "same",
                   "subgroup(list)": "same", "subgroup(dict)": "same", "subgroup(list,compute_inverse=False)": "same",
                   "subgroup(generator_names)": "same", "subgroup(list-of-lists)": "same",
                   "compose:identity": "projective", "compose:block_include": "projective", "gln_adjoint": "projective",
@@ -351,6 +353,71 @@ def hostile_caller(v, hist, model, simple):
             v.append({"key": key, "msg": "%s: generator names differ from the model's %r" % (what, letters)})
         elif compare(v, key, [(g,) for g in letters], tab, wtab, None, what + ": stored generator vs the matrix that was assigned"):
             compare(v, key, words, vals, want, None, what + ": rep[w] vs the product of the matrices that were assigned")
+    t += hostile_reader(v, hist, model, simple, letters, words, want, wtab)
+    return t
+
+
+# the other direction: values the representation handed OUT.  rep[w] / rep.element(w) / rep.elements(words) of the plain
+# representation and of the wrapped ones (ProjectiveRepresentation; HyperbolicRepresentation on the Lorentz alphabet) belong to
+# the caller, who scales them in place; the table (a generator AND its stored inverse) and every word value stay what they were.
+READ_SOURCES = ["Representation", "ProjectiveRepresentation", "HyperbolicRepresentation"]
+
+
+def _scale_in_place(x):
+    """The caller scales a value it was handed in place (the matrix of a Transformation / Isometry; an array)."""
+    arr = x if isinstance(x, np.ndarray) else getattr(x, "matrix", None)
+    if not isinstance(arr, np.ndarray):
+        return
+    try:
+        arr *= 2
+    except ValueError:      # a read-only array: the library protects its table this way, nothing to do for the caller
+        pass
+
+
+def hostile_reader(v, hist, model, simple, letters, words, want, wtab):
+    from geometry_tools import projective, hyperbolic
+    from geometry_tools.representation import Representation
+    cfg = hist[0][1]
+    n = cfg["dim"]
+    mats = alphabet(cfg["alpha"], n)
+    jw = (lambda w: "".join(w)) if simple else (lambda w: list(w))
+    t = 0
+    for srcname in READ_SOURCES:
+        if srcname == "HyperbolicRepresentation" and cfg["alpha"] != "lorentz":
+            continue
+
+        def replay(srcname=srcname):
+            rep = Representation()
+            for op in hist[1:]:
+                if op[0] == "set":
+                    rep[op[1]] = mats[op[2]].copy()
+            if srcname == "ProjectiveRepresentation":
+                rep = projective.ProjectiveRepresentation(rep)
+            elif srcname == "HyperbolicRepresentation":
+                rep = hyperbolic.HyperbolicRepresentation(rep)
+            if sorted(rep.generators.keys()) != sorted(letters):
+                return None, None
+            # one-letter words, the empty word, longer words: through [], element(), elements()
+            for w in words:
+                _scale_in_place(rep[jw(w)])
+            for w in words:
+                _scale_in_place(rep.element(jw(w)))
+            _scale_in_place(rep.elements([jw(w) for w in words]))
+            for w in words:
+                if len(w) == 1:
+                    _scale_in_place(rep.elements([jw(w)]))
+            return stack([np.asarray(rep.generators[g]) for g in letters], n), stack(evaluate(rep, words, simple), n)
+        r = guard(v, "alias:returned-value:" + srcname, replay)
+        if r is None:
+            continue
+        t += 3 * len(words) + 2
+        tab, vals = r
+        key = "alias/returned-value/" + srcname
+        what = "the caller scales in place (x *= 2) every value that [w], element(w), elements(words) of a %s returned (words of length <= 2)" % srcname
+        if tab is None:
+            v.append({"key": key, "msg": "%s: generator names differ from the model's %r" % (what, letters)})
+        elif compare(v, key, [(g,) for g in letters], tab, wtab, None, what + ": stored generator vs the matrix that was assigned"):
+            compare(v, key, words, vals, want, None, what + ": rep[w] read again vs the product of the matrices that were assigned")
     return t
 
 
@@ -505,7 +572,15 @@ def check_state(hist):
 
     C = mats[1] if cfg["alpha"] == "gl" else mats[3]
     Ci = R.inverse(C)
+    short = [w for w in words if len(w) <= 2]
+    sel = np.array([index[w] for w in short])
+    Ts, Tis = T[sel], Tinv[sel]
     derived("conjugate", lambda: rep.conjugate(C.copy()), lambda: Ci @ T @ C)
+    # the optional precomputed inverse, in EVERY state (words of length <= 2), and unwrap=False (for the plain class the matrices are
+    # used as they are either way)
+    derived("conjugate-inv_mat", lambda: rep.conjugate(C.copy(), inv_mat=Ci.copy()), lambda: Ci @ Ts @ C, wordsel=short)
+    derived("conjugate(unwrap=False)", lambda: rep.conjugate(C.copy(), unwrap=False), lambda: Ci @ Ts @ C, wordsel=short)
+    derived("conjugate-inv_mat(unwrap=False)", lambda: rep.conjugate(C.copy(), Ci.copy(), unwrap=False), lambda: Ci @ Ts @ C, wordsel=short)
     if cfg.get("rich"):
         C5 = mats[5] if cfg["alpha"] == "gl" else mats[0]
         derived("conjugate-inv_mat", lambda: rep.conjugate(C5.copy(), inv_mat=R.inverse(C5)), lambda: R.inverse(C5) @ T @ C5)
@@ -523,9 +598,6 @@ def check_state(hist):
     derived("compose:identity", lambda: rep.compose(lambda M: M), T, True)
     blk = derived("compose:block_include", lambda: rep.compose(hom.block_include(n + 1)), lambda: R.block_include(T, n + 1))
     # every padding 0..3 of the block inclusion GL(n) -> GL(n + pad): diag(rho(w), I_pad)
-    short = [w for w in words if len(w) <= 2]
-    sel = np.array([index[w] for w in short])
-    Ts, Tis = T[sel], Tinv[sel]
     for pad in (0, 2, 3):
         derived("compose:block_include(+%d)" % pad, lambda pad=pad: rep.compose(hom.block_include(n + pad)),
                 lambda pad=pad: R.block_include(Ts, n + pad), wordsel=short)
@@ -671,8 +743,15 @@ def check_state(hist):
         nonlocal ncalls
         src_cls = type(src)
         wrapC = src_cls.wrap_func(np.asarray(C).copy())
+        wrapCi = src_cls.wrap_func(np.asarray(Ci).copy())
+        # conjugate: by wrapped objects (unwrap=True, the default) and by plain matrices (unwrap=False), each with and
+        # without the optional precomputed inverse
         items = [("copy", lambda: src_cls(src), lambda: Ts),
                  ("conjugate", lambda: src.conjugate(wrapC), lambda: Ci @ Ts @ C),
+                 ("conjugate-inv_mat", lambda: src.conjugate(wrapC, inv_mat=wrapCi), lambda: Ci @ Ts @ C),
+                 ("conjugate(unwrap=False)", lambda: src.conjugate(np.asarray(C).copy(), unwrap=False), lambda: Ci @ Ts @ C),
+                 ("conjugate-inv_mat(unwrap=False)", lambda: src.conjugate(np.asarray(C).copy(), np.asarray(Ci).copy(), unwrap=False),
+                  lambda: Ci @ Ts @ C),
                  ("dual", lambda: src.dual(), lambda: Tis.swapaxes(-1, -2)),
                  ("astype-complex", lambda: src.astype("complex128"), lambda: Ts.astype("complex128")),
                  ("compose:identity", lambda: src.compose(lambda M: M), lambda: Ts),
